@@ -18,6 +18,7 @@ done
 wait
 head -1 "$W/C01.cov" > "$W/all.cov"
 for f in "$W"/C*.cov; do tail -n +2 "$f" >> "$W/all.cov"; done
+[ -n "${KEEP_PROFILE:-}" ] && cp "$W/all.cov" "$KEEP_PROFILE"
 python3 - "$W/all.cov" > /verif/tools/coverage.txt <<'PY'
 import sys, collections
 cov = {}
